@@ -25,7 +25,7 @@ def dec(v):
     return float(v) if isinstance(v, str) else v
 
 
-def apply_pass(get, set_, tokens, strict_ref=None):
+def apply_pass(get, set_, tokens, strict_ref=None, rebind=None):
     """Apply one pass. `strict_ref` is None for the real model (NumPy decides), or a bool for the reference
     (True: warnings are errors, so a 'warn' token raises instead of storing)."""
     for name, tok in tokens:
@@ -40,7 +40,13 @@ def apply_pass(get, set_, tokens, strict_ref=None):
                 set_(name, float('inf'))
             continue
         kind = tok[0]
-        if kind == 'move':
+        if kind == 'rebind':
+            # like 'move', but through a whole-series assignment of a Python list (the container replaces the array object)
+            if rebind is not None:
+                rebind(name, tok[1])
+            else:
+                set_(name, get(name) + np.float64(tok[1]))
+        elif kind == 'move':
             set_(name, get(name) + np.float64(tok[1]))
         elif kind == 'set':
             set_(name, np.float64(dec(tok[1])))
@@ -93,8 +99,12 @@ def make_class(endogenous, check=None, exogenous=('X',), lags=0, leads=0, bases=
                                                                ('errors', 'catch_first_error', 'iteration', 'trace', 'reset')))))
             tokens = self.__dict__['_script'].get(f'{T}:{k}')
             if tokens:
+                def rebind(nm, d):
+                    new = self.__dict__['_' + nm].tolist()
+                    new[t] = new[t] + d
+                    setattr(self, nm, new)         # Sequence operand: the series is replaced, not written in place
                 apply_pass(lambda nm: self.__dict__['_' + nm][t],
-                           lambda nm, v: self.__dict__['_' + nm].__setitem__(t, v), tokens)
+                           lambda nm, v: self.__dict__['_' + nm].__setitem__(t, v), tokens, rebind=rebind)
             self.__dict__['_vals'].append(('pass', T, k, self._cells(t)))
             super()._evaluate(t, *args, **kwargs)
 
